@@ -17,6 +17,10 @@ NOT_DECIDED = ('Exact agreement with the submitted prefix and the loss bound.  A
 def run(ctx, sess):
     ctx.explanation = EXPL
     ctx.not_decided = NOT_DECIDED
+    ctx.rule('C03.l', 'bounded loss: what close and repair leave behind is reachable - every summary level whose index still refers to otherwise unreachable chunks is written (shared with C01.g)')
+    from .common import relay
+    from . import c01 as _src_c01
+    relay(ctx, sess, _src_c01.run, {'C01.g': 'C03.l'})
     P = sess.prog('default')
     ctx.rule('C03.a', 'last valid chunk: success of the backward scan requires the header-CRC equal edge and a zero result of the checked chunk read of that candidate')
     ctx.rule('C03.b', 'repair sequence: on every path from the not-closed branch to the published instance: truncate, rewrite last chunk, pointer-repair loop, FSR-rebuild loop, END, close, reopen read-only, in this order; loop bodies skip only undefined slots / undefined tracks / non-FSR signals')
@@ -28,6 +32,8 @@ def run(ctx, sess):
     ctx.rule('C03.i', 'pointer repair writes the chunk it cut: after `X.hdr.item_next = 0` on a local chunk X every path reaches jls_core_update_chunk_header(core, &X) for the same X before X is re-assigned or the function returns')
     ctx.rule('C03.j', 'repair appends END at the end of the file: in jls_rd_open no path leads from a call that can move the file position (pointer repair, scans, FSR rebuild) to jls_core_wr_end without passing jls_raw_seek_end')
     ctx.rule('C03.k', 'the backward scan for the last valid chunk examines every 8-byte aligned offset: traced with candidates that never match, the offsets handed to the header CRC cover every multiple of 8 between the first chunk and the end of the file (no offset falls between two windows)')
+    ctx.rule('C03.m', 'repair appends at the end of the file: in jls_core_repair_fsr no path leads from a call that moves the file position (seek, chunk read) to a call that can append chunks (summary reductions, track close) without passing jls_raw_seek_end')
+    ctx.rule('C03.n', 'repair copies a chunk into a typed buffer only after checking what it is: every memcpy of the bytes just read into a level / sample buffer is preceded by a compare of the chunk tag and by a compare of the length with the capacity of the destination')
     ctx.rule('C03.d', 'truncation is reachable only from the repair branch of jls_rd_open')
     ra(ctx, P)
     seq = rb(ctx, P)
@@ -38,6 +44,8 @@ def run(ctx, sess):
     single_write_rule(ctx, P)
     cut_link_rule(ctx, P)
     scan_coverage_rule(ctx, P)
+    repair_position_rule(ctx, P)
+    repair_copy_rule(ctx, P)
     end_at_end_rule(ctx, P)
     from .c14 import head_table_rule, WRITER_ROOT_PREFIXES
     roots = sorted(f.name for f in P.all_functions() if f.api and f.name.startswith(WRITER_ROOT_PREFIXES))
@@ -492,3 +500,74 @@ def scan_coverage_rule(ctx, P):
            '%d candidate offsets traced over %d file sizes, none skipped' % (tested_total, len(sizes)) if not bad else
            '; '.join(bad[:2]) + ': a last chunk that starts there is not found and the chunk before it is taken as the end of the file (one more chunk is lost)')
     ctx.floor('candidate offsets traced in the backward scan', tested_total, 1000)
+
+
+def repair_position_rule(ctx, P):
+    fn = P.fn('jls_core_repair_fsr')
+    ctx.saw(fn, 1)
+    movers = {'jls_raw_chunk_seek', 'jls_core_rd_chunk', 'jls_raw_chunk_next', 'jls_raw_rd', 'jls_raw_rd_header'}
+    # functions that can append on a path that ends in success (an allocation helper that closes the track when malloc fails does not count)
+    cand = set(g.name for g in P.all_functions() if 'jls_raw_wr' in P.reachable_from([g.name]) and g.name not in movers)
+    appenders = {'jls_raw_wr'}
+    changed = True
+    while changed:
+        changed = False
+        for name in sorted(cand - appenders):
+            g = P.functions[name]
+            hits = [c for c in g.calls() if c.callee in appenders]
+            for h_ in hits:
+                w_ = find_path(g, h_, lambda e2, facts: 'target' if (e2.k == 'ret' and ret_class(g, e2, facts) in ('zero', 'void', 'unknown')) else None)
+                if w_ is not None:
+                    appenders.add(name)
+                    changed = True
+                    break
+    appenders.discard('jls_raw_wr')
+    n = 0
+    for a in [c for c in fn.calls() if c.callee in appenders]:
+        n += 1
+        bad = None
+        for mv in [c for c in fn.calls() if c.callee in movers]:
+            w = find_path(fn, mv, lambda e2, facts: 'stop' if (e2.k == 'call' and e2.callee == 'jls_raw_seek_end') else ('target' if e2 is a else None), refine=False)
+            if w is not None:
+                bad = (mv, w)
+                break
+        ctx.ob('C03.m', bad is None, fn.name, '%s() appends at the end of the file' % a.callee, a.where(),
+               'jls_raw_seek_end lies between every position-changing call and this call' if bad is None else
+               'after %s() the position is inside the file when %s() may write an index / summary chunk: it lands on top of existing chunks (another signal\'s repaired index)' % (bad[0].callee, a.callee),
+               bad[1].render() if bad else None)
+    ctx.floor('appending calls in FSR repair', n, 3)
+
+
+def repair_copy_rule(ctx, P):
+    from ..graph import cond_facts
+    fn = P.fn('jls_core_repair_fsr')
+    n = 0
+    for mc in fn.calls(('memcpy', '__builtin_memcpy', '__builtin___memcpy_chk')):
+        srcp = fn.path(strip_casts(mc.args[1]))
+        if srcp is None or srcp.last_field() != 'start':
+            continue
+        n += 1
+        tag_edges, size_edges = set(), set()
+        for b in fn.blocks.values():
+            if b.cond is None or len(b.succs) < 2:
+                continue
+            c = strip_casts(b.cond)
+            names = [nd for nd in walk(c) if nd.get('op') == 'member']
+            if any(nd.get('field') == 'tag' for nd in names) and c.get('op') == 'bin' and c['o'] in ('==', '!='):
+                tag_edges.add((b.id, 'T' if c['o'] == '==' else 'F'))
+            if any(nd.get('field') in ('length', 'payload_length') for nd in names) and c.get('op') == 'bin' and c['o'] in ('<', '<=', '>', '>='):
+                # the edge on which the length is the smaller side
+                l, r = c['k']
+                lf = any(nd.get('op') == 'member' and nd.get('field') in ('length', 'payload_length') for nd in walk(l))
+                small_on_T = (lf and c['o'] in ('<', '<=')) or ((not lf) and c['o'] in ('>', '>='))
+                size_edges.add((b.id, 'T' if small_on_T else 'F'))
+        w1 = find_path(fn, 'entry', lambda e2, facts: 'target' if e2 is mc else None, refine=False, edge_ok=lambda b_, s_, lab: (b_.id, lab) not in tag_edges)
+        w2 = find_path(fn, 'entry', lambda e2, facts: 'target' if e2 is mc else None, refine=False, edge_ok=lambda b_, s_, lab: (b_.id, lab) not in size_edges)
+        # the check must concern the chunk just read: between the last read and the copy
+        ok = w1 is None and w2 is None
+        ctx.ob('C03.n', ok, fn.name, 'copy of the chunk just read into %s' % show(mc.args[0])[:40], mc.where(),
+               'tag and length are checked first' if ok else
+               'the chunk is copied %s: after a broken link the chunk at that offset can be of another kind and larger than the destination (heap overflow in repair)' % (
+                   'without a tag check' if w1 is not None else 'without comparing its length with the destination'),
+               (w1 or w2).render() if (w1 or w2) else None)
+    ctx.floor('chunk copies in FSR repair', n, 3)
